@@ -177,7 +177,7 @@ class Runner(object):
             self.shadow = None
         else:
             changed = self.sync(record=True)
-        res = {'err': self._err, 'changed': changed, 'geom': self.geometry()}
+        res = {'err': self._err, 'changed': changed, 'geom': self.geometry(), 'apagenum': self.display.apagenum}
         if self.text:
             res['text_same'] = (self.text_snapshot() == self._tbefore)
         gv = self.gfx.graph_view
@@ -412,6 +412,37 @@ def judge(ctx, r, e, res, where):
     ctx.count('result:' + ('err %d' % err if err is not None else 'ok'))
     ncells = sum(b - a + 1 for runs in changed.values() for (_, a, b) in runs)
     ctx.count('changed:none' if ncells == 0 else 'changed:some')
+    if err == 2:
+        # Syntax error is also what trailing text after a complete statement gives, and (as in GW-BASIC) it is raised
+        # after the statement itself has been executed: `VIEW (a,b)-(c,d),1,2,3` sets the viewport, then fails.
+        # Such a statement is judged as the executed statement it is.
+        executed = False
+        if kind == 'view' and e.get('rect') is not None and 'rect' in res:
+            a, b, c, d = e['rect']
+            executed = (tuple(res['rect']) == (min(a, c), min(b, d), max(a, c), max(b, d))
+                        and bool(res['abs']) == bool(e.get('abs'))
+                        and (tuple(res['rect']) != tuple(r.rect) or bool(res['abs']) != bool(r.absolute) or bool(changed)))
+        elif kind in ('page', 'mode') and e.get('apage') is not None:
+            executed = res.get('apagenum') == e['apage'] != r.apage
+        elif kind == 'pcopy':
+            executed = bool(changed)
+        if executed:
+            ctx.count('executed-then-syntax-error:' + e['text'].split()[0])
+            err = None
+    if e.get('expect_err'):
+        ctx.count('rejected-form:' + ('rejected' if err is not None else 'ACCEPTED ' + e['text'].split()[0]))
+    if err is not None and not r.text and kind != 'free':
+        # a statement that raises an error must leave the viewport and the active page in force
+        if 'rect' in res and (tuple(res['rect']) != tuple(r.rect) or bool(res['abs']) != bool(r.absolute)):
+            ctx.fail('failed-statement-changed-viewport:%s' % e['text'].split()[0], case,
+                     'statement failed with error %d but the viewport is %r abs=%r afterwards, it was %r abs=%r'
+                     % (err, res['rect'], res['abs'], r.rect, r.absolute))
+            r.rect, r.absolute = tuple(res['rect']), bool(res['abs'])
+        if res.get('apagenum') is not None and res['apagenum'] != r.apage:
+            ctx.fail('failed-statement-changed-page:%s' % e['text'].split()[0], case,
+                     'statement failed with error %d but the active page is %r afterwards, it was %r'
+                     % (err, res['apagenum'], r.apage))
+            r.apage = res['apagenum']
     if kind == 'mode':
         # SCREEN m[,,a[,v]]: on success a new mode with the viewport and window reset; the active page is the one
         # given, else the one that was active (PCjr: page 0 if the new mode has too few pages)
@@ -433,11 +464,20 @@ def judge(ctx, r, e, res, where):
                     ctx.fail('viewport-state:SCREEN', case, 'viewport is %r after the mode switch, expected %r'
                              % (res['rect'], r.rect))
         return
+    if kind == 'pcopy':
+        # PCOPY legitimately changes the destination page; a rejected one changes nothing
+        if err is not None and changed:
+            ctx.fail('failed-pcopy-changed-pixels', case, 'rejected PCOPY changed pixels on pages %s' % sorted(changed))
+        return
     if kind == 'page':
         if err is None:
             r.apage = e['apage']
         if changed:
             ctx.fail('page-switch-changed-pixels', case, 'SCREEN ,,a,v changed pixels on pages %s' % sorted(changed))
+        if res.get('apagenum') is not None and res['apagenum'] != r.apage:
+            ctx.fail('active-page-state', case, 'active page is %r after the statement, expected %r'
+                     % (res['apagenum'], r.apage))
+            r.apage = res['apagenum']
         return
     if r.text:
         if kind == 'gfx' or kind == 'view':
@@ -532,6 +572,16 @@ def gen_view(rng, r, exact=False):
         fa = ba = 1
     else:
         fa, ba = rng.randrange(0, 4), rng.randrange(0, 4)
+    if rng.random() < 0.2:
+        # an attribute outside 0..255: Illegal function call, and the viewport in force must stay in force
+        bad = rng.choice([256, 300, -1, 32767, -32768, 1000])
+        which = rng.randrange(3)
+        if which == 0:
+            fill, fa = True, bad
+        elif which == 1:
+            border, ba = True, bad
+        else:
+            fill, border, fa, ba = True, True, rng.choice([1, bad]), bad
     text = 'VIEW %s(%d,%d)-(%d,%d)' % ('SCREEN ' if absolute else '', a, b, c, d)
     if fill or border:
         text += ',%s' % (fa if fill else '')
@@ -540,7 +590,8 @@ def gen_view(rng, r, exact=False):
     e = {'text': text, 'kind': 'view', 'rect': [a, b, c, d], 'abs': absolute, 'fill': fill, 'border': border}
     if exact:
         e['prep'] = True
-        e['model'] = '%s view %d %d %d %d %d %d %d' % (model_prefix(r), a, b, c, d, absolute, fill, border)
+        e['model'] = '%s viewa %d %d %d %d %d %s %s' % (model_prefix(r), a, b, c, d, absolute,
+                                                       fa if fill else 'n', ba if border else 'n')
     return e
 
 
@@ -784,6 +835,146 @@ def direct_part(ctx, r, n):
 
 # ---------------------------------------------------------------------------------------------------------
 
+# ---------------------------------------------------------------------------------------------------------
+# failing statements between a successful VIEW and later drawing
+
+def failing_statements(rng, r):
+    """Every error path of VIEW / VIEW SCREEN / WINDOW / SCREEN / PCOPY and of the drawing statements: bad coordinates,
+    attributes outside 0..255, too many or too few arguments, wrong types, overflow.  Each is an entry with the meta
+    data the oracle would need if the implementation accepted it."""
+    W, H, np = r.W, r.H, r.num_pages
+    x0, y0, x1, y1 = W // 4, H // 4, W // 2, H // 2
+    out = []
+
+    def view(text, rect=(x0, y0, x1, y1), absolute=False, fill=False, border=False):
+        out.append({'text': text, 'kind': 'view', 'rect': list(rect), 'abs': absolute, 'fill': fill, 'border': border,
+                    'expect_err': True, 'must': True})
+
+    for bad in (256, 300, -1, 32767):
+        view('VIEW (%d,%d)-(%d,%d),%d' % (x0, y0, x1, y1, bad), fill=True)
+        view('VIEW (%d,%d)-(%d,%d),,%d' % (x0, y0, x1, y1, bad), border=True)
+        view('VIEW SCREEN (%d,%d)-(%d,%d),1,%d' % (x0, y0, x1, y1, bad), absolute=True, fill=True, border=True)
+        view('VIEW SCREEN (%d,%d)-(%d,%d),%d,1' % (x0, y0, x1, y1, bad), absolute=True, fill=True, border=True)
+    for i, e in enumerate(out):
+        e['must'] = i < 6 or i % 4 == rng.randrange(4)
+    n_attr = len(out)
+    view('VIEW (%d,%d)-(%d,%d)' % (-1, y0, x1, y1), rect=(-1, y0, x1, y1))
+    view('VIEW (%d,%d)-(%d,%d),1,1' % (x0, y0, W, y1), rect=(x0, y0, W, y1), fill=True, border=True)
+    view('VIEW SCREEN (%d,%d)-(%d,%d)' % (x0, y0, x1, H), rect=(x0, y0, x1, H), absolute=True)
+    view('VIEW (%d,%d)-(%d,%d)' % (x0, y0, x0, y1), rect=(x0, y0, x0, y1))
+    view('VIEW (%d,%d)-(%d,%d),2' % (x0, y0, x1, y0), rect=(x0, y0, x1, y0), fill=True)
+    view('VIEW (1E10,0)-(5,5)', rect=(0, 0, 5, 5))
+    view('VIEW (40000,0)-(5,5)', rect=(0, 0, 5, 5))
+    view('VIEW (%d,%d)-(%d,%d),1,2,3' % (x0, y0, x1, y1), fill=True, border=True)
+    view('VIEW (%d,%d)-(%d,%d),"a"' % (x0, y0, x1, y1), fill=True)
+    view('VIEW (%d,%d)-(%d,%d),1,"b"' % (x0, y0, x1, y1), fill=True, border=True)
+    view('VIEW (%d,%d)' % (x0, y0))
+    view('VIEW (%d,%d)-(%d)' % (x0, y0, x1))
+    view('VIEW SCREEN', rect=(0, 0, W - 1, H - 1), absolute=True)
+    view('VIEW SCREEN (%d,%d)-(%d,%d),70000' % (x0, y0, x1, y1), absolute=True, fill=True)
+    for e in out[n_attr:]:
+        e['must'] = False
+
+    def other(text, kind='gfx', **kw):
+        out.append(dict({'text': text, 'kind': kind, 'expect_err': True, 'must': False}, **kw))
+
+    other('WINDOW (1,1)-(1,5)', 'window', window=None)
+    other('WINDOW SCREEN (1,1)-(5,1)', 'window', window=None)
+    other('WINDOW (1,1)', 'window', window=None)
+    other('WINDOW SCREEN', 'window', window=None)
+    other('WINDOW (1,"a")-(2,2)', 'window', window=None)
+    other('WINDOW (1,1)-(2,2),3', 'window', window=None)
+    other('SCREEN ,,%d' % np, 'page', apage=np)
+    other('SCREEN ,,0,%d' % np, 'page', apage=0)
+    other('SCREEN ,,255,255', 'page', apage=255)
+    other('SCREEN ,,256', 'page', apage=256)
+    other('SCREEN ,,-1', 'page', apage=-1)
+    other('SCREEN ,,"a"', 'page', apage=0)
+    other('SCREEN 99', 'mode', mode=99, apage=None)
+    other('SCREEN 256', 'mode', mode=256, apage=None)
+    other('SCREEN %d,,%d' % (r.mode, np), 'mode', mode=r.mode, apage=np)
+    other('SCREEN %d,1,0,0,0,0' % r.mode, 'mode', mode=r.mode, apage=0)
+    other('PCOPY %d,0' % np, 'pcopy')
+    other('PCOPY 0,%d' % np, 'pcopy')
+    other('PCOPY 0', 'pcopy')
+    other('PCOPY 0,1,2', 'pcopy')
+    other('PCOPY -1,0', 'pcopy')
+    other('PCOPY "a",0', 'pcopy')
+    for t in ['PSET (1,1),256', 'PSET (1,1),-1', 'PRESET (1,1),300', 'PSET (40000,1)', 'PSET (1,1E10),1', 'PSET (1)',
+              'PSET (1,1),1,2', 'PSET ("a",1)', 'PSET STEP(70000,0)',
+              'LINE (1,1)-(2,2),256', 'LINE (1,1)-(2,2),-1,BF', 'LINE (1,1)-(2,2),1,Q', 'LINE (1,1)-(2,2),1,B,70000',
+              'LINE (1,1)-(2,2),1,BF,1,2', 'LINE (1,1)-(40000,2)', 'LINE (1,1)', 'LINE -("a",2)', 'LINE (1,1)-(2,2),"c"',
+              'CIRCLE (1,1),-5', 'CIRCLE (1,1),5,256', 'CIRCLE (1,1),5,-1', 'CIRCLE (1,1),5,1,7', 'CIRCLE (1,1),5,1,0,-7',
+              'CIRCLE (1,1)', 'CIRCLE (1,1),5,1,0,1,1,1', 'CIRCLE (40000,1),5', 'CIRCLE (1,1),1E10', 'CIRCLE (1,1),"r"',
+              'PAINT (1,1),256', 'PAINT (1,1),-1', 'PAINT (1,1),1,300', 'PAINT (1,1),""', 'PAINT (1,1),1,1,5',
+              'PAINT (40000,1)', 'PAINT (1,1),CHR$(1),1,CHR$(1)', 'PAINT (1)', 'PAINT (1,1),1,"b"',
+              'DRAW "Q"', 'DRAW "U99999999"', 'DRAW "S300"', 'DRAW "S0"', 'DRAW "M1"', 'DRAW "A4"', 'DRAW "TA999"',
+              'DRAW "C100000"', 'DRAW "P1"', 'DRAW 5', 'DRAW', 'DRAW "U=QQ;"', 'DRAW "M10000,0"', 'DRAW "T5"',
+              'PUT (1,1),Q%', 'PUT (1,1),A$', 'PUT (1,1)', 'PUT (1,1),A%,GOTO', 'PUT (%d,%d),B%%,PSET' % (W, H),
+              'PUT (40000,1),A%', 'PUT (1,1),A%,PSET,1', 'GET (0,0)-(5,5),Q%', 'GET (0,0)-(%d,5),A%%' % (W + 5),
+              'GET (0,0)-(39,29),Z%', 'GET (0,0),A%']:
+        other(t)
+    return out
+
+
+def probe_drawing(rng, r, rect, absolute):
+    """Drawing statements that would leave the viewport (and would be misplaced if relative coordinates were taken as
+    absolute) if it were no longer in force."""
+    W, H = r.W, r.H
+    ox, oy = (0, 0) if absolute else (rect[0], rect[1])
+    c = rng.randrange(1, max(2, r.num_attr))
+    k = rng.randrange(6)
+    if k == 0:
+        t = 'LINE (%d,%d)-(%d,%d),%d,BF' % (-ox - 5, -oy - 5, W + 5 - ox, H + 5 - oy, c)
+    elif k == 1:
+        t = 'LINE (%d,%d)-(%d,%d),%d' % (-ox, -oy, W - 1 - ox, H - 1 - oy, c)
+    elif k == 2:
+        t = 'CIRCLE (%d,%d),%d,%d' % ((rect[0] + rect[2]) // 2 - ox, (rect[1] + rect[3]) // 2 - oy, max(W, H) // 3, c)
+    elif k == 3:
+        t = 'PSET (%d,%d),%d: PSET (%d,%d),%d: PSET (%d,%d),%d' % (
+            rect[2] + 1 - ox, rect[1] - oy, c, rect[0] - ox, rect[3] + 1 - oy, c, 0 - ox, 0 - oy, c)
+    elif k == 4:
+        t = 'DRAW "BM%d,%d C%d R%d D%d L%d U%d"' % (max(0, rect[0] - ox + 1), max(0, rect[1] - oy + 1), c, W, H, 2 * W, 2 * H)
+    else:
+        t = 'LINE (%d,%d)-(%d,%d),%d,B' % (rect[0] - 1 - ox, rect[1] - 1 - oy, rect[2] + 1 - ox, rect[3] + 1 - oy, c)
+    return {'text': t, 'kind': 'gfx'}
+
+
+def failing_part(ctx, r, n_fail):
+    """A viewport smaller than the screen is set; then rejected statements alternate with drawing that reaches outside
+    it.  The oracle demands that the viewport and the active page stay in force (and, as always, that every changed
+    cell lies in the viewport of the active page)."""
+    rng = ctx.rng
+    W, H = r.W, r.H
+    rect = (W // 3, H // 3, 2 * W // 3, 2 * H // 3)
+    absolute = rng.random() < 0.4
+    apage = rng.randrange(min(r.num_pages, 3))
+    family = failing_statements(rng, r)
+    must = [e for e in family if e['must']]
+    rest = [e for e in family if not e['must']]
+    chosen = must + rng.sample(rest, min(len(rest), max(0, n_fail - len(must))))
+    rng.shuffle(chosen)
+    entries = [{'text': 'SCREEN ,,%d,0' % apage, 'kind': 'page', 'apage': apage},
+               {'text': 'WINDOW', 'kind': 'window', 'window': None},
+               setup_view_entry(rect, absolute)]
+    for i, e in enumerate(chosen):
+        entries.append(e)
+        entries.append(probe_drawing(rng, r, rect, absolute))
+        if i % 7 == 6:
+            # a successful VIEW in between, so that the rejected ones meet different viewports
+            rect = rng.choice([(W // 3, H // 3, 2 * W // 3, 2 * H // 3), (1, 1, W // 2, H // 2), (W // 2, H // 2, W - 2, H - 2)])
+            absolute = not absolute
+            entries.append(setup_view_entry(rect, absolute))
+    where = {'video': r.video, 'mode': r.mode, 'part': 'failing', 'meta': entries, 'start': start_state(r)}
+    results = r.run(entries, setup=SETUP_RESTORE(r))
+    for k, (e, res) in enumerate(zip(entries, results)):
+        judge(ctx, r, e, res, dict(where, index=k))
+        ctx.case((r.video, r.mode, 'failing', k, e['text']))
+        if e.get('expect_err'):
+            ctx.count('failing:' + e['text'].split()[0])
+    return results
+
+
 def start_state(r):
     return {'rect': list(r.rect), 'abs': r.absolute, 'apage': r.apage, 'window': r.window}
 
@@ -811,15 +1002,18 @@ def run_entries(ctx, r, entries, where, label):
             # tracked state so that a rejected VIEW earlier in the list cannot desynchronise it
             mline = before + ' ' + e['model'].split(' ', 8)[-1]
             lines.append(mline)
-            outs.append(impl_string(res, view=(e['kind'] == 'view')) if not (e['kind'] == 'view' and res['err'] is not None)
-                        else 'err %d' % res['err'])
+            if e['kind'] == 'view' and res['err'] is not None:
+                # a rejected VIEW: the error and the viewport it leaves in force
+                outs.append('err %d view %d %d %d %d %d' % ((res['err'],) + tuple(res['rect']) + (1 if res['abs'] else 0,)))
+            else:
+                outs.append(impl_string(res, view=(e['kind'] == 'view')))
             cases.append({'video': r.video, 'mode': r.mode, 'text': e['text']})
     if lines:
         ctx.compare(cases, outs, lines, label=label)
     return results
 
 
-def config_part(ctx, video, mode, n_exact, n_direct, n_hist, hist_len, n_paint):
+def config_part(ctx, video, mode, n_exact, n_direct, n_hist, hist_len, n_paint, n_fail=14):
     rng = ctx.rng
     r = Runner(video, mode)
     try:
@@ -856,6 +1050,12 @@ def config_part(ctx, video, mode, n_exact, n_direct, n_hist, hist_len, n_paint):
                     return
                 e['model'] = '%s %s' % (model_prefix(r), e['model'].split(' ', 8)[-1])
                 results += run_entries(ctx, r, [e], dict(where, part='view', meta=[e], start=start_state(r)), 'view')
+        if r.broken:
+            return
+        # rejected statements between a successful VIEW and later drawing
+        failing_part(ctx, r, n_fail)
+        if r.broken:
+            return
         # statement histories, oracle only
         paints = [n_paint]
         for hi in range(n_hist):
@@ -1046,7 +1246,7 @@ def run(ctx):
         if quick:
             config_part(ctx, video, mode, n_exact=24, n_direct=30, n_hist=2, hist_len=25, n_paint=2)
         else:
-            config_part(ctx, video, mode, n_exact=150, n_direct=300, n_hist=10, hist_len=60, n_paint=25)
+            config_part(ctx, video, mode, n_exact=150, n_direct=300, n_hist=10, hist_len=60, n_paint=25, n_fail=200)
         ctx.log('%s SCREEN %d done' % (video, mode))
     for video in ['ega', 'vga', 'tandy', 'pcjr', 'cga']:
         if quick:
